@@ -176,6 +176,7 @@ trait Obj {
     fn new_h(&mut self, pat: u8) -> usize;
     fn clone_h(&mut self, i: usize) -> usize;
     fn drop_h(&mut self, i: usize);
+    fn mark_alive(&self, i: usize);
     /// Addresses returned by Deref, AsRef::as_ref, Borrow::borrow.
     fn addrs(&self, i: usize) -> [usize; 3];
     fn bytes_ok(&self, i: usize, pat: u8) -> bool;
@@ -267,6 +268,10 @@ impl<T: Payload> Obj for Slots<T> {
     fn drop_h(&mut self, i: usize) {
         let c = self.h[i].take().expect("handle slot is empty");
         drop(c);
+    }
+
+    fn mark_alive(&self, i: usize) {
+        self.get(i).mark_alive();
     }
 
     fn addrs(&self, i: usize) -> [usize; 3] {
@@ -595,13 +600,18 @@ fn one_route(o: &mut dyn Obj, release: Release, weak: WeakMode, pat: u8, bad: &m
     // ---- a second allocation of the same type: distinct box, distinct elem address (also for ZSTs)
     {
         let mark = lp::log_len();
-        let other = rec(|| o.new_h(pat ^ 0xFF));
-        if o.ptr_eq(cc, other) || o.ptr_eq(other, c2) {
+        // as indistinguishable from `cc` as possible: same type, same payload bytes, same strong
+        // count (2), same mark (both were un-buffered by the collection above)
+        let other = rec(|| o.new_h(pat));
+        let other2 = rec(|| o.clone_h(other));
+        if o.ptr_eq(cc, other) || o.ptr_eq(other, c2) || o.ptr_eq(c2, other2) || o.ptr_eq(other2, cc) {
             bad.push("ptr_eq_true_for_distinct_allocations".into());
         }
-        if !o.ptr_eq(other, other) {
-            bad.push("ptr_eq_false_for_itself".into());
+        if !o.ptr_eq(other, other) || !o.ptr_eq(other, other2) || !o.ptr_eq(other2, other) {
+            bad.push("ptr_eq_false_for_same_allocation".into());
         }
+        rec(|| o.drop_h(other2));
+        rec(|| o.mark_alive(other));
         let obase = o.box_addr(other);
         if o.addrs(other)[0] == p {
             bad.push("distinct_allocations_same_elem_addr".into());
@@ -609,7 +619,7 @@ fn one_route(o: &mut dyn Obj, release: Release, weak: WeakMode, pat: u8, bad: &m
         if o.addrs(other)[0].wrapping_sub(obase) != off {
             bad.push("elem_offset_differs_between_allocations".into());
         }
-        check_bytes(o, "other", other, pat ^ 0xFF, bad);
+        check_bytes(o, "other", other, pat, bad);
         rec(|| o.drop_h(other)); // unique: freed at once
         let evs = lp::log_since(mark);
         let fr = deallocs(&evs);
